@@ -25,7 +25,19 @@ for d in sorted((VERIF / "seeded").iterdir()):
         sys.exit("/repo dirty")
     ap = subprocess.run(["git", "-C", str(REPO), "apply", str(d / "patch.diff")], capture_output=True, text=True)
     if ap.returncode != 0:
-        rows.append((d.name, prop, "patch does not apply", "", ""))
+        # keep what the last run in which the patch still applied found, and say so
+        old = None
+        t0 = VERIF / "seeded" / "DETECTION.md"
+        if t0.exists():
+            for line in t0.read_text().splitlines():
+                cells = [c.strip() for c in line.strip().strip("|").split(" | ")]
+                if len(cells) >= 3 and cells[0] == d.name and cells[1] == prop and cells[2].startswith("DETECTED"):
+                    old = cells
+        if old:
+            res = old[2] if "earlier repo HEAD" in old[2] else "DETECTED (at an earlier repo HEAD; the patch no longer applies: later repo fixes rewrote the same lines)"
+            rows.append((d.name, prop, res, old[3] if len(old) > 3 else "", old[4] if len(old) > 4 else meta.get("summary", "")[:160].replace("|", "/")))
+        else:
+            rows.append((d.name, prop, "patch does not apply", "", ""))
         continue
     try:
         for p in [prop] + list(meta.get("also", [])):
